@@ -61,11 +61,13 @@ CLAIMED["C07"] = dict(
          "granularity of mutex operations, every test of closed/till/len and every deque mutation, with arbitrary wake-ups: mutations "
          "happen one at a time inside their call; without front pushes initial++appended = removed++contents (exact FIFO, nothing "
          "lost or duplicated); with pushes every value's multiplicity is conserved; every popleft returns the head; pop(till) "
-         "returns None only on the timed-out path after its till fired and that path changes nothing.",
+         "returns None only on the timed-out path after its till fired and that path changes nothing; L2 (C07_operations_terminate): "
+         "without new calls and environment events the threads inside Queue methods take at most an explicit rank of steps - each "
+         "turn of the capacity / empty loop consumes what woke the thread (silent and non-silent queues).",
     design="§5 C07", technique="Lean 4 inductive invariant (FIFO refinement ghosts) + trace acceptance of real Queue executions + independent FIFO replay monitor",
     note="Trusted: Lean kernel + standard axioms; model Queue.lean tied to queues.py by trace acceptance under the deterministic "
          "scheduler with the real Lock/Signal/OrSignal/Till underneath; the Lock's baton is an arbitrary environment move in the model "
-         "(no-loss liveness is C06). deque ops, `with`, logger.error raising are modelled, not verified. silent, non-unique queues.")
+         "(no-loss liveness is C06). deque ops, `with`, logger.error raising are modelled, not verified. non-unique queues, both modes.")
 CLAIMED["C08"] = dict(
     text="Lean 4 theorems on the same model for every max, any number of producers/consumers, silent and non-silent queues: a non-forced add() appends only "
          "with the queue closed or below max (so an open queue never exceeds max through add); a producer finding the open queue "
@@ -79,8 +81,8 @@ CLAIMED["C08"] = dict(
 CLAIMED["C09"] = dict(
     text="Lean 4 theorems on the same model: closed is permanent; after close a pop still drains head-first and then gets the stop "
          "marker; consumers already parked (or that had tested closed before close() ran) are enabled once closed and end with the "
-         "stop marker; L1: no consumer is parked in any quiescent state of a closed queue; non-forced add/push/extend on a closed "
-         "queue raise without enqueueing.",
+         "stop marker; L1: no consumer is parked in any quiescent state of a closed queue, and L2 (C09_pending_pops_return): that state is "
+         "reached within an explicit rank of steps; non-forced add/push/extend on a closed queue raise without enqueueing.",
     design="§5 C09", technique="Lean 4 invariant + L1 quiescence theorem + trace acceptance + close monitors on real runs",
     note="Same trusted base as C07.")
 
@@ -89,7 +91,7 @@ CLAIMED["C13"] = dict(
          "any number of creators, locked sections split into acquire/body/release, the unlocked next_ping read-modify-write split "
          "in two): the polling loop never fires a timer before its deadline; scans are at most one interval apart; while the daemon "
          "runs an unfired registered Till implies clock <= max(deadline, registration) + INTERVAL; non-positive seconds yield the "
-         "always-true signal.",
+         "always-true signal; Till(till=absolute) is always registered, also with a deadline in the past.",
     design="§5 C13", technique="Lean 4 inductive invariant (32 fields, Int arithmetic by omega, sort/split list lemmas) + trace acceptance of the real daemon on a virtual clock",
     note="Trusted: Lean kernel + standard axioms; model Till.lean tied to till.py by trace acceptance under the deterministic scheduler "
          "(thread-local steps taken eagerly); idle-system clock discipline (time passes only while the daemon sleeps and no creation "
@@ -120,7 +122,9 @@ CLAIMED["C11"] = dict(
          "registering) - proved by an invariant that keeps every target covered by the remaining work list; please_stop is "
          "permanent; an unstopped thread is still listed under its parent (repaired shutdown block); MainThread.stop() ends its join "
          "phase only when every child of main and, by C10, every registered descendant has stopped, and reports failures after "
-         "having joined all. The pinned tree violated the property (stop racing a shutdown block that had detached its children): fixed.",
+         "having joined all; LEAVES NOTHING BEHIND (C11_main_stop_leaves_nothing_registered): every thread that exists descends from "
+         "the main thread through the registration lists, so at the end of the join phase every thread has stopped and none is in "
+         "the registry ALL. The pinned tree violated the property (stop racing a shutdown block that had detached its children): fixed.",
     design="§5 C11, §7", technique="Lean 4 inductive invariants (work-list coverage of stop(), frame lemmas for every move) + trace acceptance + C11 monitor under gated-stop schedules",
     note="Same trusted base as C10. 'Registered' is the ghost list of all threads ever registered under a parent; the flattened "
          "work list of stop() is exact because the recursion never exits early.")
@@ -139,12 +143,14 @@ CLAIMED["C16"] = dict(
          "timing, timer firing and finite failure pattern of the slow queue: accepted batches ++ buffer ++ item in hand ++ queued "
          "values is always exactly the sequence added (ordered, loss-free, exactly once); a failed extend changes nothing, an "
          "accepted batch is the buffer; exactly one stop marker, sent last; no crash without an external abort; L1: once the stop "
-         "marker is queued the worker can only come to rest at its end, so stop() returns. The pinned tree hung when the final "
+         "marker is queued the worker can only come to rest at its end, so stop() returns; L2 (C16_worker_runs_terminate, "
+         "C16_stop_returns_in_bounded_steps): an explicit rank (queued items, remaining failure pattern, fired state of the flush "
+         "timer) decreases at every step, so it gets there within that many steps. The pinned tree hung when the final "
          "flush failed: fixed in /repo, replay in corpus.",
     design="§5 C16, §7", technique="Lean 4 inductive invariant + L1 quiescence theorem + trace acceptance of the real worker with a scripted failing sink",
     note="Trusted: Lean kernel + standard axioms; model TQWorker.lean tied to worker_bee by trace acceptance; a failed extend() "
-         "delivers nothing (assumption on the sink); bounded-step termination (L2) is argued from the finite failure pattern, not "
-         "yet a ranking theorem.")
+         "delivers nothing (assumption on the sink); the L2 theorem assumes that timers which do not exist yet have not fired "
+         "(`Fresh`), which holds for every state the environment of the real code can produce.")
 
 CLAIMED["C18"] = dict(
     text="PARTIAL (protocol logic proved, bash/OS sampled). Lean 4 theorems: the shell's word splitting of the line built by "
@@ -164,7 +170,7 @@ CLAIMED["C19"] = dict(
          "worker, every result value (null and falsy values are ordinary values), remote errors and log lines: a call that has "
          "returned holds exactly the worker's answer to ITS OWN request (value for out, exception for err); one request in flight; "
          "the reader classifies every line; L1: in a state where nobody can move every caller has returned (no lost wake-up, no "
-         "wedged lock). The pinned tree blocked on falsy results, wedged on set(), crossed answers of concurrent callers, could not "
+         "wedged lock); L2 (C19_every_call_returns): callers, reader and worker together take at most an explicit rank of steps. The pinned tree blocked on falsy results, wedged on set(), crossed answers of concurrent callers, could not "
          "pass true/false/null arguments, kept the old value on set(name, None) and lost an answer when a log line landed inside "
          "it: six fix: commits in /repo, replays in corpus. What mo_json does to empty strings, null members and integers beyond "
          "2**53 is an open known finding.",
@@ -194,7 +200,10 @@ CLAIMED["C03"] = dict(
          "and cannot be collected, its operand list is intact until it is triggered or dies; a composite not triggered directly "
          "is true only if some operand is (at every moment); a true operand's trigger is always on its way to the composite; "
          "EQUIVALENCE (C03_or_iff, C03_or_iff_operands): at every quiescent point a live composite is true exactly when some "
-         "operand is, whether the operands were triggered before, during or after it was built; flags are monotone. The constants "
+         "operand is, whether the operands were triggered before, during or after it was built; flags are monotone; STRONG REACHABILITY "
+         "(C03_composite_owns_its_OrSignal, C03_operands_strongly_reachable): the composite holds its OrSignal through a registered "
+         "callback and the OrSignal its operands, so no collector - reference counting or cycle detection - can free the operands "
+         "of a composite the program can reach. The constants "
          "(None/True/False/DONE/NEVER) and the release of waiters (C01 on the composite, an ordinary Signal) are checked on the "
          "real operators by monitors and by trace acceptance.",
     design="§5 C03", technique="Lean 4 inductive invariants (liveness of operands, hook coverage, propagation) over a heap with reference counting + trace acceptance of the real operators under CPython refcounting + monitors",
@@ -210,7 +219,7 @@ CLAIMED["C04"] = dict(
          "fixed in /repo); COUNTDOWN (C04_countdown_is_exact): `remaining` always equals the number of operand positions whose "
          "countdown step has not run, each position counts exactly once (a & a counts twice); the composite is true only if all "
          "operands are; EQUIVALENCE (C04_and_iff, C04_and_iff_operands): at every quiescent point a live composite not triggered "
-         "directly is true exactly when both operands are. The countdown step is one model step; the real decrement is explored "
+         "directly is true exactly when both operands are; strong reachability as for C03 (C04_operands_strongly_reachable). The countdown step is one model step; the real decrement is explored "
          "at the granularity of every access to `remaining` (fine-mode runs). Constants are checked by monitors.",
     design="§5 C04, §7", technique="Lean 4 inductive invariants (token counting of countdown steps over per-thread pending actions) over a heap with reference counting + trace acceptance + fine-mode countdown runs + monitors",
     note="Same trusted base as C03.")
